@@ -27,6 +27,7 @@ import (
 	"io"
 	"os"
 	osexec "os/exec"
+	"os/signal"
 	"path/filepath"
 	"runtime"
 	"runtime/pprof"
@@ -174,6 +175,16 @@ func workerMain() {
 
 // ---- coordinator ----
 
+var scratchDir string
+
+// fatal is vk.Fatalf for the coordinator: removes the scratch directory first.
+func fatal(format string, a ...interface{}) {
+	if scratchDir != "" {
+		os.RemoveAll(scratchDir)
+	}
+	vk.Fatalf(format, a...)
+}
+
 type workerProc struct {
 	id     int
 	cmd    *osexec.Cmd
@@ -186,11 +197,11 @@ type workerProc struct {
 func startWorker(id int, dir string) *workerProc {
 	exe, err := os.Executable()
 	if err != nil {
-		vk.Fatalf("executable: %v", err)
+		fatal("executable: %v", err)
 	}
 	mark := filepath.Join(dir, fmt.Sprintf("w%d.mark", id))
 	if err := os.WriteFile(mark, make([]byte, 4096), 0600); err != nil {
-		vk.Fatalf("marker file: %v", err)
+		fatal("marker file: %v", err)
 	}
 	cmd := osexec.Command(exe, "--worker", "--mark", mark)
 	cmd.Env = append(os.Environ(), "GOTRACEBACK=single")
@@ -200,7 +211,7 @@ func startWorker(id int, dir string) *workerProc {
 	w.stdout = bufio.NewReaderSize(so, 1<<20)
 	cmd.Stderr = w.stderr
 	if err := cmd.Start(); err != nil {
-		vk.Fatalf("start worker: %v", err)
+		fatal("start worker: %v", err)
 	}
 	return w
 }
@@ -232,7 +243,7 @@ func runUnit(w **workerProc, dir string, u unit, caseTimeout time.Duration) (*un
 	var merged *unitResult
 	for attempt := 0; ; attempt++ {
 		if attempt > 400 {
-			vk.Fatalf("unit %d (%s root %d): more than 400 worker deaths", u.ID, u.Kind, u.Root)
+			fatal("unit %d (%s root %d): more than 400 worker deaths", u.ID, u.Kind, u.Root)
 		}
 		data, _ := json.Marshal(u)
 		if _, err := (*w).stdin.Write(append(data, '\n')); err != nil {
@@ -264,7 +275,7 @@ func runUnit(w **workerProc, dir string, u unit, caseTimeout time.Duration) (*un
 				}
 				var res unitResult
 				if err := json.Unmarshal(got.line, &res); err != nil {
-					vk.Fatalf("unit %d: bad worker result: %v", u.ID, err)
+					fatal("unit %d: bad worker result: %v", u.ID, err)
 				}
 				partial := res.Partial
 				merged = mergeResult(merged, &res)
@@ -308,7 +319,7 @@ func runUnit(w **workerProc, dir string, u unit, caseTimeout time.Duration) (*un
 			reason = "stack"
 		}
 		if reason == "" || id == 0 {
-			vk.Fatalf("worker died outside a recorded case (unit %d kind %s root %d, marker case %d): %s", u.ID, u.Kind, u.Root, id, tail)
+			fatal("worker died outside a recorded case (unit %d kind %s root %d, marker case %d): %s", u.ID, u.Kind, u.Root, id, tail)
 		}
 		killers = append(killers, killer{Unit: u.ID, Case: id, Type: typ, Entry: entry, Class: class, Input: input, Reason: reason, Stderr: firstLine(stderr)})
 		u.Skip = append(u.Skip, id)
@@ -433,6 +444,11 @@ func main() {
 			// the 1-deviation corpus
 			lim, ok := 0, true
 			devReduce := reduce || ep != epBytes || sizes[i].length > 2048
+			if ep != epBytes && sizes[i].length > 1024 {
+				// the other entry points differ from DecodeBytes in the handling of the prefix and of the input limit,
+				// i.e. at the top of the value: for large roots their 1-deviation corpus stops at depth 2
+				lim = 2
+			}
 			if r.Quick() {
 				ok = false
 				if ep == epBytes {
@@ -491,7 +507,15 @@ func main() {
 			vk.Fatalf("scratch dir: %v", err)
 		}
 	}
+	scratchDir = dir
 	defer os.RemoveAll(dir)
+	sig := make(chan os.Signal, 1)
+	signal.Notify(sig, syscall.SIGINT, syscall.SIGTERM)
+	go func() {
+		<-sig
+		os.RemoveAll(dir)
+		os.Exit(2)
+	}()
 	// expensive units first (better packing); results are merged in unit order, so the outcome does not depend on it
 	order := make([]int, len(units))
 	for i := range order {
@@ -660,8 +684,7 @@ func main() {
 	r.Set("decode_outcome_classes", outcomes)
 	r.Set("observations_outside_the_property", observed)
 	r.Set("fields_not_populated", opq)
-	r.Set("max_alloc_bytes_per_input_byte_x1000", maxRatio)
-	r.Set("max_alloc_case", maxRatioAt)
+	r.Set("diagnostics_gc_dependent", map[string]interface{}{"max_alloc_bytes_per_input_byte_x1000_among_inspected_batches": maxRatio, "max_alloc_case": maxRatioAt})
 	r.Set("bounds", map[string]interface{}{"round_trip_max_fields_off_default": rtDev, "round_trip_depth_limit_per_deviation": rtDepth,
 		"hostile_corpus_max_fields_off_default": 1, "substitution_bytes": fmt.Sprintf("%x", substSet), "hostile_items": len(hostileItems()),
 		"alloc_bound": fmt.Sprintf("%d + %d*len(input) (+%d for reader entry points)", allocConst, allocPerByte, 2*readerLimit), "address_space_limit": memLimit})
@@ -679,8 +702,10 @@ func main() {
 	r.Assume("decoders are called the way the repository calls them: DecodeReader* with a limit of 1 MiB; the unlimited ser.Decode on a stream (documented as unsafe in decode.go) is not an entry point")
 	r.Assume("hostile WAL input is a correctly framed (crc, length) hostile payload; the framing itself belongs to C14")
 	r.Assume("Bulletproofs inside the real confidential transaction are the ideal functionality of /verif/xcrypto_model; the codec does not look at them")
-	if len(outcomes) < 5 {
-		vk.Fatalf("non-vacuity: only %d distinct decode outcomes", len(outcomes))
+	if skippedUnits == 0 && os.Getenv("C11_ONLY") == "" {
+		if len(outcomes) < 5 || counters["values"] == 0 || counters["hostile_decodes"] == 0 || counters["map_insertion_orders"] == 0 || counters["hostile_accepted"] == 0 {
+			vk.Fatalf("non-vacuity: %d distinct decode outcomes, %d values, %d hostile decodes, %d map orders, %d accepted", len(outcomes), counters["values"], counters["hostile_decodes"], counters["map_insertion_orders"], counters["hostile_accepted"])
+		}
 	}
 	r.Finish()
 }
